@@ -131,8 +131,10 @@ class Outcome:
 class Table:
     """Decision table of one function body."""
 
-    def __init__(self, func, name_sign=None, name_bool=None, call_filter=None, max_paths=20000):
-        """name_sign: {label: regex on show_key(key)} ; name_bool: {label: regex on bool key text}"""
+    def __init__(self, func, name_sign=None, name_bool=None, call_filter=None, max_paths=20000, name_enum=None):
+        """name_sign: {label: regex on show_key(key)} ; name_bool: {label: regex on bool key text} ;
+        name_enum: {label: (regex on the tested subject, (variant names…))} - an enum-valued slot: `subject is V` (match arm) and
+        `subject == Enum::V` / `!=` (comparison) are the same condition; the scenario gives the slot one of the variant names."""
         self.func = func
         self.body = func.body
         self.flow = Flow(self.body)
@@ -141,9 +143,32 @@ class Table:
         self.name_bool = {k: re.compile(v) for k, v in (name_bool or {}).items()}
         self.call_filter = re.compile(call_filter) if call_filter else None
         self.max_paths = max_paths
+        self.name_enum = {k: (re.compile(v[0]), tuple(v[1])) for k, v in (name_enum or {}).items()}
+        self.seen_enum = {}
         self.seen_sign = {}
         self.seen_bool = {}
         self._collect()
+
+    def _enum_of(self, fact):
+        """(label, predicate over the slot's variant name) when the fact tests a declared enum slot, else None"""
+        if not self.name_enum:
+            return None
+        (a, t) = fact
+        for lab, (rx_, variants) in self.name_enum.items():
+            if a[0] == "variant" and a[2] in variants and rx_.search(show(strip(a[1]), 300)):
+                return lab, (lambda v, want=a[2], t=t: (v == want) == t)
+            if a[0] == "eq":
+                for x_, y_ in ((a[1], a[2]), (a[2], a[1])):
+                    m = re.search(r"::(\w+)(\{\})?$", show(strip(y_), 300))
+                    if m and m.group(1) in variants and rx_.search(show(strip(x_), 300)):
+                        return lab, (lambda v, want=m.group(1), t=t: (v == want) == t)
+        return None
+
+    def canon(self, fact):
+        e = self._enum_of(fact)
+        if e is not None:
+            return ("enum", e[0], e[1])
+        return canon(fact)
 
     def _label(self, kind, key):
         if kind == "sign":
@@ -164,11 +189,13 @@ class Table:
                 continue
             for k in range(len(blk.term.targets) + 1):
                 for f in self.flow.edge_facts(("e", blk.i, k)):
-                    kind, key, fn = canon(f)
+                    kind, key, fn = self.canon(f)
                     if kind == "sign":
                         self.seen_sign[key] = self._label(kind, key)
                     elif kind == "bool":
                         self.seen_bool[key] = self._label(kind, key)
+                    elif kind == "enum":
+                        self.seen_enum[key] = True
         # comparisons whose result is kept in a local (`let first = id.sbn == 0 && id.esi == 0;`, or the result of an inlined helper)
         for blk in self.body.blocks:
             if blk.cleanup:
@@ -176,22 +203,26 @@ class Table:
             for s_ in blk.stmts:
                 if s_.k == "assign" and not s_.lhs[1] and s_.rv.k == "bin" and s_.rv.j.get("op") in ("Eq", "Ne", "Lt", "Le", "Gt", "Ge"):
                     for f in facts_of(self.x.rvalue(s_.rv, self.x.depth), True):
-                        kind, key, fn = canon(f)
+                        kind, key, fn = self.canon(f)
                         if kind == "sign":
                             self.seen_sign.setdefault(key, self._label(kind, key))
                         elif kind == "bool":
                             self.seen_bool.setdefault(key, self._label(kind, key))
+                        elif kind == "enum":
+                            self.seen_enum[key] = True
         # returned comparison expressions
         for blk in self.body.blocks:
             if blk.cleanup:
                 continue
             for e in self._ret_exprs(blk):
                 for f in facts_of(e, True):
-                    kind, key, fn = canon(f)
+                    kind, key, fn = self.canon(f)
                     if kind == "sign":
                         self.seen_sign[key] = self._label(kind, key)
                     elif kind == "bool":
                         self.seen_bool[key] = self._label(kind, key)
+                    elif kind == "enum":
+                        self.seen_enum[key] = True
 
     def _ret_exprs(self, blk):
         out = []
@@ -204,24 +235,31 @@ class Table:
         return out
 
     def labels_found(self):
-        return set(v for v in list(self.seen_sign.values()) + list(self.seen_bool.values()) if v)
+        return set(v for v in list(self.seen_sign.values()) + list(self.seen_bool.values()) if v) | set(self.seen_enum)
 
     def scenarios(self):
         sign_labels = sorted(set(v for v in self.seen_sign.values() if v))
         bool_labels = sorted(set(v for v in self.seen_bool.values() if v))
+        enum_labels = sorted(self.seen_enum)
         for sv in itertools.product((-1, 0, 1), repeat=len(sign_labels)):
             for bv in itertools.product((False, True), repeat=len(bool_labels)):
-                sc = dict(zip(sign_labels, sv))
-                sc.update(dict(zip(bool_labels, bv)))
-                yield sc
+                for ev in itertools.product(*[self.name_enum[l][1] for l in enum_labels]):
+                    sc = dict(zip(sign_labels, sv))
+                    sc.update(dict(zip(bool_labels, bv)))
+                    sc.update(dict(zip(enum_labels, ev)))
+                    yield sc
 
     def _edge_ok(self, node, sc):
         """True/False if the scenario decides the edge, None if some fact is unnamed"""
         undecided = False
         for f in self.flow.edge_facts(node):
-            kind, key, fn = canon(f)
+            kind, key, fn = self.canon(f)
             if kind == "fixed":
                 if not fn(None):
+                    return False
+                continue
+            if kind == "enum":
+                if not fn(sc[key]):
                     return False
                 continue
             lab = self.seen_sign.get(key) if kind == "sign" else self.seen_bool.get(key)
@@ -238,9 +276,11 @@ class Table:
         fs = facts_of(e, True)
         # the first fact characterises the expression's truth
         f = fs[0]
-        kind, key, fn = canon(f)
+        kind, key, fn = self.canon(f)
         if kind == "fixed":
             return fn(None)
+        if kind == "enum":
+            return fn(sc[key])
         lab = self.seen_sign.get(key) if kind == "sign" else self.seen_bool.get(key)
         if lab is not None:
             return fn(sc[lab])
